@@ -45,7 +45,7 @@ META = {
 
 UIDS = [1, 2, 3, 4]
 NAMES = ["n1", "n2", "n3", "n4"]
-HAS = ["h1", "h2", "h3", "h4"]
+HAS = ["h1", "h2", "h3", ""]       # one falsy address (what Device assigns when none is given)
 LOCAL = (1, "n1", "h1")
 # escape keys, used only as the target of a constructive ("to a free key") re-keying
 XUIDS, XNAMES, XHAS = [5, 6, 7, 8], ["n5", "n6", "n7", "n8"], ["h5", "h6", "h7", "h8"]
